@@ -630,6 +630,10 @@ func callSSA(i *interpreter, caller *frame, callpos token.Pos, fn *ssa.Function,
 	if info.subst != nil {
 		return callSSA(i, caller, callpos, info.subst, args, nil)
 	}
+	// reflect.TypeFor[T]() (used by package initialisers such as encoding/xml's): the type argument is static
+	if ta := fn.TypeArgs(); len(ta) == 1 && fn.Pkg == nil && strings.HasPrefix(info.name, "reflect.TypeFor[") {
+		return makeReflectType(rtype{ta[0]})
+	}
 	if fn.Parent() == nil {
 		if info.intrinsic != nil {
 			if r, ok := info.intrinsic(fr, args); ok {
@@ -713,6 +717,9 @@ func runFrame(fr *frame) {
 		}
 		p := recover()
 		if isControlPanic(p) {
+			if fr.i.ps == nil && fr.i.initPanicPos == "" {
+				fr.i.initPanicPos = fr.fn.String() + callerChain(fr.caller)
+			}
 			panic(p)
 		}
 		if re, ok := p.(runtime.Error); ok {
